@@ -178,7 +178,40 @@ def run(tier):
     for i, t in enumerate(ft):
         t2.append({'t': 2 * i, 'op': 'bin', 'lang': t['lang'], 'x': t['x'], 'y': t['y']})
         t2.append({'t': 2 * i + 1, 'op': 'bin', 'lang': t['lang'], 'x': t['x'], 'y': t['y'], 'seen': t['name']})
+    # caller-supplied collections: empty, holding only other pairs, holding the (erased) pair itself
+    def erased(c):
+        if c['k'] == 'F':
+            return gen.fun(erased(c['l']), c['s'], erased(c['r']))
+        return gen.atom(c['b'], enc.NOF) if c['f'] in (gen.uf('X'), gen.uf('nb')) else c
+    adhoc = []
+    for i in range(300 if tier == 'quick' else 3000):
+        t = ft[rng.randrange(len(ft))]
+        if i % 3 != 0:       # prefer pairs that combine
+            t = rng.choice([u for u in ft[3::4]])
+        others = [ft[rng.randrange(len(ft))] for _ in range(rng.choice([0, 0, 1, 3]))]
+        others = [u for u in others if u['lang'] == t['lang']]
+        ers = (lambda c: erased(c)) if t['lang'] == 'en' else (lambda c: c)
+        members = [[ers(u['x']), ers(u['y'])] for u in others if (ers(u['x']), ers(u['y'])) != (ers(t['x']), ers(t['y']))]
+        if i % 5 == 4:
+            members.append([ers(t['x']), ers(t['y'])])
+        adhoc.append({'lang': t['lang'], 'x': t['x'], 'y': t['y'], 'members': members, 'frozen': i % 2 == 1})
+    base_t = 2 * len(ft)
+    for i, t in enumerate(adhoc):
+        t2.append({'t': base_t + 2 * i, 'op': 'bin', 'lang': t['lang'], 'x': t['x'], 'y': t['y']})
+        t2.append({'t': base_t + 2 * i + 1, 'op': 'bin', 'lang': t['lang'], 'x': t['x'], 'y': t['y'], 'adhoc': t['members'], 'frozen': t['frozen']})
     ob2 = rules.run_tasks(t2, 'c14b')
+    n_adhoc_empty = 0
+    for i, t in enumerate(adhoc):
+        full, res = ob2[base_t + 2 * i][0], ob2[base_t + 2 * i + 1][0]
+        g += 1
+        meta = {'x': enc.show_cat(t['x']), 'y': enc.show_cat(t['y']), 'set': 'caller-supplied %s of %d pairs' % ('frozenset' if t['frozen'] else 'set', len(t['members']))}
+        if full['raised'] or res['raised']:
+            add({'e': 'bin', 'g': g, 'lang': t['lang'], 'x': t['x'], 'y': t['y'], 'pb': [], 'raised': True, 'res': [], 'xa': t['x'], 'ya': t['y']},
+                dict(meta, raised=full['exc'] or res['exc']))
+            continue
+        n_adhoc_empty += 0 if t['members'] else 1
+        add({'e': 'filt', 'g': g, 'lang': t['lang'], 'set': 'adhoc', 'members': t['members'], 'x': t['x'], 'y': t['y'], 'full': full['res'], 'res': res['res']},
+            dict(meta, full=len(full['res']), filtered=len(res['res'])))
     n_member = 0
     for i, t in enumerate(ft):
         full, res = ob2[2 * i][0], ob2[2 * i + 1][0]
@@ -249,7 +282,7 @@ def run(tier):
         'traces_validated_against_impl': len(events),
         'binding_demonstration': demo,
         'events': {'keys_observed_in_every_process': len(tasks), 'hash_seeds': seeds, 'observations': n_obs, 'multi_variable_pairs': len(mv),
-                   'filter_events': n_f, 'filter_events_with_nonempty_result': n_member, 'nb_pairs': n_nb, 'unary_lookups': len(ut)},
+                   'filter_events': n_f, 'filter_events_with_caller_supplied_sets': len(adhoc), 'of_which_empty_set': n_adhoc_empty, 'filter_events_with_nonempty_result': n_member, 'nb_pairs': n_nb, 'unary_lookups': len(ut)},
         'samples': [metas[i] for i in (2, 3, len(events) - len(ut) - 5, len(events))],
         'checker_cmd': stats.cmds[0] if stats.cmds else '',
         'rule': 'each key is applied twice in each of %d fresh interpreters with different PYTHONHASHSEED; all observations of a key must be the same list' % len(seeds),
